@@ -58,3 +58,41 @@ def backup_groups(path, sb, offset=0):
             if p and p["group_nr"] == g:
                 out.append(g)
     return out
+
+
+_T = None
+def crc32c(crc, data):
+    """CRC-32C (Castagnoli), reflected, table driven; no pre/post inversion (callers pass the seed)."""
+    global _T
+    if _T is None:
+        _T = []
+        for i in range(256):
+            c = i
+            for _ in range(8):
+                c = (c >> 1) ^ 0x82F63B78 if c & 1 else c >> 1
+            _T.append(c)
+    for b in data:
+        crc = _T[(crc ^ b) & 0xFF] ^ (crc >> 8)
+    return crc
+
+
+def sb_csum_ok(b):
+    """b: 1024 bytes of a superblock copy.  True when the filesystem has no metadata_csum or the stored checksum verifies."""
+    ro = struct.unpack_from("<I", b, 100)[0]
+    if not ro & 0x400:
+        return True
+    return crc32c(0xFFFFFFFF, b[:0x3FC]) == struct.unpack_from("<I", b, 0x3FC)[0]
+
+
+def bad_backup_csums(path, sb, groups, offset=0):
+    out = []
+    with open(path, "rb") as f:
+        for g in groups:
+            if g == 0:
+                f.seek(offset + 1024)
+            else:
+                f.seek(offset + (sb["first"] + g * sb["bpg"]) * sb["bs"])
+            b = f.read(1024)
+            if len(b) == 1024 and not sb_csum_ok(b):
+                out.append(g)
+    return out
